@@ -103,7 +103,7 @@ struct RunOut {
 }
 
 /// One execution under a schedule given as forced switches (step -> task).
-fn run_once(setup: &Setup, forced: &[(usize, usize)]) -> RunOut {
+fn run_once(setup: &Setup, forced: &[(usize, usize)], starve: bool) -> RunOut {
     let disk = VDisk::new();
     let kp = test_key_pair();
     let hc = block_on(async {
@@ -176,6 +176,22 @@ fn run_once(setup: &Setup, forced: &[(usize, usize)]) -> RunOut {
                 } else {
                     // blocked on the lock: let somebody else run (not a preemption)
                     idle_rounds += 1;
+                    if starve {
+                        // async_lock hands the mutex over in FIFO order only to a waiter that has
+                        // waited for more than 0.5 ms (otherwise the releasing task may take it
+                        // again at once): let that time pass and poll the waiter once more so
+                        // that it notices
+                        std::thread::sleep(std::time::Duration::from_micros(650));
+                        if let Some(f) = futs[cur].as_mut() {
+                            if let Ok(Poll::Ready(())) = std::panic::catch_unwind(std::panic::AssertUnwindSafe(|| f.as_mut().poll(&mut cx))) {
+                                futs[cur] = None;
+                            }
+                        }
+                        step += 1;
+                        if !futs.iter().any(|f| f.is_some()) {
+                            break;
+                        }
+                    }
                     cur = (0..n).map(|k| (cur + 1 + k) % n).find(|k| futs[*k].is_some()).unwrap();
                 }
             }
@@ -220,7 +236,8 @@ fn gen_writer_setup(rng: &mut StdRng, ntasks: usize, ncalls: usize) -> Setup {
         for _ in 0..rng.gen_range(1..=ncalls) {
             let c = match rng.gen_range(0..10) {
                 0..=2 => Call::Append(small_block(rng)),
-                3..=4 => Call::Batch((0..rng.gen_range(0..3)).map(|_| small_block(rng)).collect()),
+                3 => Call::Batch((0..rng.gen_range(0..3)).map(|_| small_block(rng)).collect()),
+                4 => Call::Batch((0..rng.gen_range(3..8)).map(|_| small_block(rng)).collect()),
                 5 => Call::Get(rng.gen_range(0..4)),
                 6 => Call::Has(rng.gen_range(0..4)),
                 7 => Call::Info,
@@ -281,7 +298,7 @@ pub fn run(args: &[String]) {
         let ntasks = rng.gen_range(2..=ntasks_max.max(2));
         let setup = if r % 3 == 2 { gen_replica_setup(&mut rng, ntasks) } else { gen_writer_setup(&mut rng, ntasks, ncalls) };
         // baseline run to learn the number of steps, then forced switches at every position
-        let base = run_once(&setup, &[]);
+        let base = run_once(&setup, &[], false);
         let mut schedules: Vec<Vec<(usize, usize)>> = vec![vec![]];
         for s in 0..base.steps {
             for t in 0..ntasks {
@@ -310,8 +327,19 @@ pub fn run(args: &[String]) {
         }
         schedules.truncate(max_sched.max(1));
         let mut seen = std::collections::HashSet::new();
-        for (si, sch) in schedules.iter().enumerate() {
-            let o = run_once(&setup, sch);
+        // the same schedules once more with starved waiters (FIFO hand-over of the mutex), for the
+        // run-until-blocked schedule and every single forced switch
+        let nstarve = schedules.iter().filter(|s| s.len() <= 1).count().min(max_sched / 4 + 1);
+        let all: Vec<(Vec<(usize, usize)>, bool)> = schedules
+            .iter()
+            .map(|s| (s.clone(), false))
+            .chain(schedules.iter().filter(|s| s.len() <= 1).take(nstarve).map(|s| (s.clone(), true)))
+            .collect();
+        for (si, (sch, starve)) in all.iter().enumerate() {
+            let o = run_once(&setup, sch, *starve);
+            if *starve {
+                rec.count("starved_schedules", 1);
+            }
             rec.count("schedules", 1);
             if o.hung {
                 rec.count("hangs", 1);
